@@ -304,6 +304,7 @@ class Sim:
         pct_d=2,
         pct_horizon=4000,
         hot_boost=0.0,
+        watch_arrays=True,
         preempts=None,
         choices=None,
         faults=None,
@@ -326,6 +327,8 @@ class Sim:
         self._last_hot = None
         self._hot_left = {}
         self._decide_op = {}
+        self.watch_arrays = watch_arrays
+        self.race = None
         # policy "stall": a slow node.  Every task that reaches a line of one per-run chosen family of acryo functions
         # (hash of the function name) is parked there -- at the next point where a thread switch is possible -- and is
         # not resumed as long as anything else can run.
@@ -357,7 +360,7 @@ class Sim:
         self.stats = dict(
             gets=0, nested_gets=0, tasks=0, events=0, switches=0, max_inflight=0,
             lock_blocks=0, cache_clears=0, cache_clears_inflight=0, dup_exec=0,
-            cache_get_overlap=0, resumes=0, hot_events=0, serialised_tasks=0, stalls=0,
+            cache_get_overlap=0, resumes=0, hot_events=0, serialised_tasks=0, stalls=0, arrays_watched=0, held_array_changed=0,
         )
         self.sites = set()
         self.dup_mismatch = None
@@ -448,8 +451,52 @@ class Sim:
                     self._ev("P", w.task_ord, site)
                     self.sched_log.update(repr((w.task_ord, site)).encode())
                     self._probe_overlap()
+                    held = self._held_arrays(frame) if self.watch_arrays else None
                     w.yield_to_director()
+                    if held:
+                        self._check_held(held, site, w)
         return self._local_trace
+
+    # -- invariant: no array referenced by a parked task changes while it is parked --------------------------
+    def _held_arrays(self, frame):
+        import zlib
+
+        import numpy as np
+
+        out = []
+        seen = set()
+        f = frame
+        depth = 0
+        while f is not None and depth < 8:
+            if f.f_code.co_filename.startswith(ACRYO_PREFIX):
+                for name, v in list(f.f_locals.items()):
+                    vals = v if isinstance(v, (list, tuple)) and len(v) <= 8 else (v,)
+                    for x in vals:
+                        if isinstance(x, np.ndarray) and 0 < x.size <= 1_000_000 and x.dtype != object and id(x) not in seen:
+                            seen.add(id(x))
+                            try:
+                                out.append((f.f_code.co_name, name, x, zlib.adler32(np.ascontiguousarray(x).view(np.uint8))))
+                            except Exception:
+                                pass
+            f = f.f_back
+            depth += 1
+        self.stats["arrays_watched"] += len(out)
+        return out
+
+    def _check_held(self, held, site, w):
+        import zlib
+
+        import numpy as np
+
+        for fn, name, x, c0 in held:
+            try:
+                c1 = zlib.adler32(np.ascontiguousarray(x).view(np.uint8))
+            except Exception:
+                continue
+            if c1 != c0:
+                self.stats["held_array_changed"] += 1
+                if self.race is None:
+                    self.race = {"function": fn, "variable": name, "parked_at": list(site), "task": w.task_ord, "shape": list(x.shape)}
 
     def _probe_overlap(self):
         n = 0
